@@ -2894,6 +2894,14 @@ func (s *Store) deleteCheckTxn(tx WriteTxn, idx uint64, node string, checkID typ
 			}
 
 			svc := svcRaw.(*structs.ServiceNode)
+			// The check may still carry the name its service had when the check was
+			// registered; the health view that loses the check is the one of the
+			// service's current name.
+			if svc.ServiceName != existing.ServiceName {
+				if err := catalogUpdateServiceIndexes(tx, idx, svc.ServiceName, &svc.EnterpriseMeta, svc.PeerName); err != nil {
+					return err
+				}
+			}
 			if err := catalogUpdateServiceKindIndexes(tx, idx, svc.ServiceKind, &svc.EnterpriseMeta, svc.PeerName); err != nil {
 				return err
 			}
